@@ -347,6 +347,15 @@ def a5_run(carve):
             keyed("lit(5)", lambda t: pdt.lit(5), lambda r: 5)
             keyed("lit(5)", lambda t: pdt.lit(5), lambda r: 5, extra=(1,))
             keyed("lit(5, Int64)", lambda t: pdt.lit(5, pdt.Int64()), lambda r: 5, extra=(1,))
+            # a constant as the ONLY grouping key is still a grouping: no row for an empty input, a later filter sees the aggregated row
+            cases += [
+                ("mutate(k=1) >> group_by(k) >> summarize(n=count()) >> filter(n > 1)", lambda: t >> pdt.mutate(k=1) >> pdt.group_by(pdt.C.k) >> pdt.summarize(n=pdt.count()) >> pdt.filter(pdt.C.n > 1), ["k", "n"], [(1, len(rows))]),
+                ("mutate(k=1) >> group_by(k) >> summarize(n=count()) >> filter(n > 100)", lambda: t >> pdt.mutate(k=1) >> pdt.group_by(pdt.C.k) >> pdt.summarize(n=pdt.count()) >> pdt.filter(pdt.C.n > 100), ["k", "n"], []),
+                ("filter(h > 100) >> mutate(k=1) >> group_by(k) >> summarize(n=count(), s=c.sum())  [no rows, constant key]", lambda: t >> pdt.filter(t.h > 100) >> pdt.mutate(k=1) >> pdt.group_by(pdt.C.k) >> pdt.summarize(n=pdt.count(), s=t.c.sum()), ["k", "n", "s"], []),
+                ("filter(h > 100) >> group_by(a) >> summarize(n=count())  [no rows]", lambda: t >> pdt.filter(t.h > 100) >> pdt.group_by(t.a) >> pdt.summarize(n=pdt.count()), ["a", "n"], []),
+                ("group_by(a) >> group_by(a, add=True) >> summarize(n=count())  [a column is a grouping column once]", lambda: t >> pdt.group_by(t.a) >> pdt.group_by(t.a, add=True) >> pdt.summarize(n=pdt.count()), ["a", "n"], oracle((0,), (cnt,))),
+                ("group_by(a, b, a) >> summarize(n=count())", lambda: t >> pdt.group_by(t.a, t.b, t.a) >> pdt.summarize(n=pdt.count()), ["a", "b", "n"], oracle((0, 1), (cnt,))),
+            ]
             for label, mk, cols, want in cases:
                 n += 1
                 try:
